@@ -1,0 +1,18 @@
+//go:build verif
+
+package encoding
+
+// C13 (generated encoders): what the derived contracts of the generated encoders (zz_verif_c13gen.go in the packages with
+// TLV models) need from this package: exported forms of two length functions (ghost Go code of other packages must
+// compile). The A-MEM lemmas they come with (lemmaNameLenMono, lemmaWireLenMono) are the existing ones.
+
+// SpecNameLen: total encoded size of the first k components of n (specNameLen).
+func SpecNameLen(n Name, k int) int { return specNameLen(n, k) }
+
+// SpecWireSegLen: total length of the first k buffers of w (specWireLen).
+func SpecWireSegLen(w Wire, k int) int { return specWireLen(w, k) }
+
+// SpecCritical: the criticality rule of the NDN packet format (NDN Packet Format 0.3, "TLV evolvability"): TLV-TYPE numbers
+// 0..31 are critical, above that odd numbers are critical and even numbers are non-critical. Written from the format
+// specification; the generated parsers are checked against it (schemas/parsers_c13.schema).
+func SpecCritical(t TLNum) bool { return t <= 31 || t&1 == 1 }
